@@ -3,7 +3,9 @@ package lua
 import (
 	"context"
 	"fmt"
+	"math"
 	"os"
+	"strings"
 )
 
 type LValueType int
@@ -151,7 +153,11 @@ func (nm LNumber) Format(f fmt.State, c rune) {
 	case 'b', 'd', 'o', 'x', 'X', 'U':
 		defaultFormat(int64(nm), f, c)
 	case 'e', 'E', 'f', 'F', 'g', 'G':
-		defaultFormat(float64(nm), f, c)
+		if v := float64(nm); math.IsInf(v, 0) || math.IsNaN(v) {
+			formatNonFinite(v, f, c)
+		} else {
+			defaultFormat(v, f, c)
+		}
 	case 'i':
 		defaultFormat(int64(nm), f, 'd')
 	default:
@@ -161,6 +167,36 @@ func (nm LNumber) Format(f fmt.State, c rune) {
 			defaultFormat(float64(nm), f, c)
 		}
 	}
+}
+
+// formatNonFinite writes an infinity or a NaN the way C's printf does:
+// "inf"/"nan" (upper case for E, F and G), a sign only for -inf or when the
+// + or space flag asks for one, never zero padded.
+func formatNonFinite(v float64, f fmt.State, c rune) {
+	s := "inf"
+	if math.IsNaN(v) {
+		s = "nan"
+	}
+	if c == 'E' || c == 'F' || c == 'G' {
+		s = strings.ToUpper(s)
+	}
+	switch {
+	case math.IsInf(v, -1):
+		s = "-" + s
+	case f.Flag('+'):
+		s = "+" + s
+	case f.Flag(' '):
+		s = " " + s
+	}
+	if w, ok := f.Width(); ok && w > len(s) {
+		pad := strings.Repeat(" ", w-len(s))
+		if f.Flag('-') {
+			s += pad
+		} else {
+			s = pad + s
+		}
+	}
+	f.Write([]byte(s))
 }
 
 type LTable struct {
